@@ -186,8 +186,8 @@ def worker_main() -> int:
                     wenv.step(0)
                 wenv.close()
                 del wenv
-            except Exception as e:  # a warm-up that cannot run is reported (and makes this worker's stream differ)
-                emit({"warmup": wi, "raised": type(e).__name__, "msg": str(e)[:200]})
+            except Exception as e:  # a warm-up that cannot run is reported to the parent on stderr (counted; not part of the compared stream)
+                sys.stderr.write(f"WARMUP-FAILED {wi} {type(e).__name__}: {str(e)[:120]}\n")
         canon.ids.clear()
         env = PrimaiteGymEnv(env_config=cfg)
 
